@@ -99,6 +99,8 @@ class C08(Prop):
             return self.gen_nonmultiple(rng)
         if r < 0.3:
             return self.gen_dense(rng)
+        if r < 0.4:
+            return self.gen_sibling(rng)
         cls = rng.choice(['offline', 'online', 'pastified', 'pastified', 'pastified-futurefree'])
         if cls == 'offline':
             c = lang.GenCfg(vars=['x', 'y'], max_depth=rng.choice([1, 2, 3]), unless=True, max_bound=rng.choice([2, 4, 6]),
@@ -135,6 +137,45 @@ class C08(Prop):
                 'unit': rng.choice(['s', 'ms', 'us']), 'online': rng.random() < 0.5,
                 'data': lang.gen_trace(rng, ['x', 'y'], 4)}
 
+    def gen_sibling(self, rng):
+        """Two operators over the same operand whose intervals are spelled with the same numerals and differ only
+        in a unit suffix (``once[0:2s](p) and not once[0:2ms](p)``): every suffix must count."""
+        small, big = rng.choice([('ms', 's'), ('us', 'ms'), ('ns', 'us')])
+        unit = rng.choice([small, small, big])                  # default unit of the specification
+        cls = rng.choice(['offline'] * 5 + ['online'] * 7 + ['pastified'] * 2 + ['dense-online'] * 3 + ['dense-offline'] * 3)
+        if cls in ('online', 'dense-online'):
+            op = rng.choice(['once', 'historically', 'since'])
+        else:
+            op = rng.choice(['once', 'historically', 'since', 'eventually', 'always', 'until'])
+        if cls == 'pastified':
+            op = rng.choice(['eventually', 'always'])           # (the reference for until is cubic in the window)
+        a, b = rng.choice([(0, 1), (0, 2), (0, 3), (1, 2), (1, 3), (2, 2)])
+        if op in ('since', 'until') and not cls.startswith('dense'):
+            a, b = rng.choice([(0, 1), (1, 1)])                   # rtamt's bounded since/until is quadratic in the window
+        if cls.startswith('dense'):
+            unit = small                                          # integer stamps: float arithmetic stays exact
+        # begin is spelled the same way in both operators: with a suffix, or bare (then it takes the unit of the end,
+        # or the default unit when the end is bare too); the ends carry the same numeral and different units
+        ua = rng.choice([small, small, ''])
+        sfx = [small, big] + ([''] if ua == '' else [])
+        u1 = rng.choice(sfx)
+        u2 = rng.choice([u for u in sfx if (u or unit) != (u1 or unit)])
+        if cls == 'pastified' and big in (u1 or unit, u2 or unit):
+            a, b = 0, 1                                           # horizon 1000 samples
+        conn = rng.choice(['and', 'or', 'implies', 'xor', 'iff'])
+        neg = rng.random() < 0.5
+        c = lang.GenCfg(vars=['x', 'y'], max_depth=1, timed=False, future=False, past=False, events=False,
+                        transcend=False)
+        p, q = lang.gen_pred(rng, c, 0), lang.gen_pred(rng, c, 0)
+        n = rng.randint(2, 12) + (1000 * b if cls == 'pastified' else 0)
+        if rng.random() < 0.08 and op not in ('since', 'until') and cls in ('offline', 'online'):
+            n += 1000 * min(b, 2)                               # long enough for the larger window to close
+        if cls.startswith('dense'):
+            n = rng.randint(2, 8)
+        return {'type': 'sibling', 'cls': cls, 'op': op, 'a': a, 'b': b, 'ua': ua, 'u1': u1, 'u2': u2, 'small': small,
+                'big': big, 'unit': unit, 'conn': conn, 'neg': neg, 'p': lang.to_jsonable(p), 'q': lang.to_jsonable(q),
+                'dseed': rng.randrange(1 << 30), 'n': n}
+
     def gen_dense(self, rng):
         c = lang.dense_cfg(rng)
         c.max_depth = min(c.max_depth, 3)
@@ -157,6 +198,8 @@ class C08(Prop):
             return self.judge_discrete(case)
         if t == 'nonmultiple':
             return self.judge_nonmultiple(case)
+        if t == 'sibling':
+            return self.judge_sibling(case)
         return self.judge_dense(case)
 
     def run_disc(self, cls, sd, names, data, n, times):
@@ -217,6 +260,136 @@ class C08(Prop):
                 v.bad('notation-differs:' + mode, '%s [unit=%s period=%s%s consts=%s, %s] gives %r at #%d, canonical '
                       '%s (period 1 s) gives %r; data=%s' % (text, unit, period[0], period[1], sp.consts, cls, got[i], i,
                                                             lang.to_text(f), base[i], data))
+                break
+        return v
+
+    def judge_sibling(self, case):
+        import random
+        v = Verdict()
+        rng = random.Random(case['dseed'])
+        op, a, b, cls, unit = case['op'], case['a'], case['b'], case['cls'], case['unit']
+        small, big = case['small'], case['big']
+        k = U[big] // U[small]                                   # 1000
+        p, q = lang.from_jsonable(case['p']), lang.from_jsonable(case['q'])
+        binary = op in ('since', 'until')
+
+        def spelled(u):
+            return '[%d%s:%d%s]' % (a, case['ua'], b, u)
+
+        def samples(u):
+            # per-bound unit, else the unit of the other bound, else the default unit
+            ue = u or case['ua'] or unit
+            ub = case['ua'] or u or unit
+            return (a * (U[ub] // U[small]), b * (U[ue] // U[small]))
+
+        def node(ivl):
+            return (op, ivl, p, q) if binary else (op, ivl, p)
+
+        def text_of(u):
+            body = lang.to_text(p) if not binary else None
+            if binary:
+                return '(%s %s%s %s)' % (lang.to_text(p), op, spelled(u), lang.to_text(q))
+            return '(%s%s %s)' % (op, spelled(u), body)
+
+        i1, i2 = samples(case['u1']), samples(case['u2'])
+        if i1[0] > i1[1] or i2[0] > i2[1] or i1 == i2:
+            v.skip = 'degenerate pair'
+            return v
+        f2 = node(i2)
+        t2 = text_of(case['u2'])
+        if case['neg']:
+            f2, t2 = ('not', None, f2), '(not %s)' % t2
+        f = (case['conn'], None, node(i1), f2)
+        kw = {'and': 'and', 'or': 'or', 'implies': '->', 'xor': 'xor', 'iff': '<->'}[case['conn']]
+        text = '(%s %s %s)' % (text_of(case['u1']), kw, t2)
+        names = ['x', 'y']
+        n = case['n']
+        v.nontrivial = True
+        v.info['sibling:%s:%s' % (cls, op)] = 1
+        rel = rel_for(f)
+        if cls.startswith('dense'):
+            # dense time: stamps in the default unit, one sample of the speller = 1 small unit
+            ts, t = [], Fr(0)
+            for _ in range(n):
+                ts.append(t)
+                t += rng.choice([1, 1, 2, 3, 500, k, 2 * k]) * Fr(U[small], U[unit])
+            sig = dict((nm, [(tt, rng.choice(lang.SMALL)) for tt in ts]) for nm in names)
+            scale = Fr(U[small], U[unit])
+            fd = lang.map_formula(f, lambda g: g if (lang.is_leaf(g) or g[1] is None) else
+                                  (g[0], (g[1][0] * scale, g[1][1] * scale)) + g[2:])
+            try:
+                exp = ref_dense.evaluate(fd, sig)
+            except refd.Undefined:
+                v.skip = 'reference undefined'
+                return v
+            try:
+                if cls == 'dense-offline':
+                    got = drive.ct_offline(text, names, sig, sd={'unit': unit})
+                else:
+                    m = drive.Mon('ct', {'text': text, 'vars': names, 'unit': unit})
+                    got, cut = [], rng.randint(1, n - 1) if n > 1 else n
+                    for lo, hi in ((0, cut), (cut, n)):
+                        if hi > lo:
+                            got += m.update(*[[nm, [[float(tt), val] for tt, val in sig[nm][lo:hi]]] for nm in names])
+            except Exception as e:
+                v.bad('sibling-raises:' + type(e).__name__, '%s [unit=%s, %s] raised %s: %s' % (
+                    text, unit, cls, type(e).__name__, e))
+                return v
+            end = ts[-1]
+            fin = [g[0] for g in got if abs(g[0]) != float('inf')]
+            cover = max(fin) if fin else None
+            for tt in ref_dense.probe_times(exp, got, Fr(0), end):
+                if exp.at(tt) != exp.at(tt):
+                    continue
+                gv = ref_dense.out_value(got, tt)
+                if gv is None:
+                    if cls == 'dense-offline':
+                        v.bad('sibling-dense-missing', '%s [unit=%s, %s]: no value at t=%s; signals=%s got=%s' % (
+                            text, unit, cls, float(tt), sig, got[:8]))
+                        break
+                    continue
+                if cls == 'dense-online' and (cover is None or tt >= Fr(cover).limit_denominator(1 << 30)):
+                    continue
+                if not refd.same(gv, exp.at(tt), rel):
+                    v.bad('sibling-dense-differs', '%s [unit=%s, %s] gives %r at t=%s, the durations %s and %s (in %s) '
+                          'give %r; signals=%s' % (text, unit, cls, gv, float(tt), i1, i2, small, exp.at(tt),
+                                                   dict((nm, [(float(a_), b_) for a_, b_ in s_]) for nm, s_ in sig.items())))
+                    break
+            return v
+        data = dict((nm, [rng.choice(lang.SMALL) for _ in range(n)]) for nm in names)
+        if n > 100:
+            # long traces: constant stretches with a few changes, so that wide windows matter
+            for nm in names:
+                val, out = rng.choice(lang.SMALL), []
+                for i in range(n):
+                    if rng.random() < 0.004 or i in (1, 2, 3):
+                        val = rng.choice(lang.SMALL)
+                    out.append(val)
+                data[nm] = out
+        try:
+            exp = refd.evaluate(f, data, n)
+        except refd.Undefined:
+            v.skip = 'reference undefined'
+            return v
+        sd = {'text': text, 'vars': names, 'period': (1, small, 0.1), 'unit': unit}
+        times = [float(Fr(i * U[small], U[unit])) for i in range(n)]
+        try:
+            got = self.run_disc(cls, sd, names, data, n, times)
+        except Exception as e:
+            v.bad('sibling-raises:' + type(e).__name__, '%s [unit=%s period=1%s, %s] raised %s: %s' % (
+                text, unit, small, cls, type(e).__name__, e))
+            return v
+        h = lang.horizon(f) if cls == 'pastified' else 0
+        for i in range(h, n):
+            e = exp[i - h] if cls == 'pastified' else exp[i]
+            if e != e:
+                continue
+            if cls == 'offline' and i + lang.horizon(f) >= n:
+                continue
+            if not refd.same(got[i], e, rel):
+                v.bad('sibling-differs', '%s [unit=%s period=1%s, %s] gives %r at #%d; with the durations %s and %s '
+                      'samples the value is %r; data(head)=%s n=%d' % (text, unit, small, cls, got[i], i, i1, i2, e,
+                                                                    dict((nm, d[:12]) for nm, d in data.items()), n))
                 break
         return v
 
